@@ -499,6 +499,9 @@ def run(ctx):
         ctx.note_case(src, sample=dict(rule=rid, position=pos, role=role, tail=src[len(PRE):][-400:]))
         ctx.count("pairs_" + role)
         case = dict(rule=rid, position=pos, role=role, source=src)
+        if front.skipped(r):
+            ctx.count("not_judged_after_repeated_hangs")
+            continue
         if r["crash"] is not None:
             ctx.violation("crash:%s" % (r["crash"][1] if len(r["crash"]) > 1 else r["crash"][0],),
                           "analyser crashed on %s@%s" % (rid, pos), case, {"stderr.txt": r["stderr"]})
